@@ -56,7 +56,10 @@ type Parser struct {
 
 // Next parses a single field from the reader. It returns false when there are no more fields to parse.
 func (r *Parser) Next(f *Field) bool {
-	if !r.fieldScanner.Next(f) {
+	// Loop until a field is found: a scanned token may contain no fields at all
+	// (only comments, invalid fields or nothing), in which case the next one must
+	// be scanned, so that Next returns false only when the input has truly ended.
+	for !r.fieldScanner.Next(f) {
 		if !r.inputScanner.Scan() {
 			// Do this to signal EOF, which bufio.Scanner suppresses.
 			if r.inputScanner.Err() == nil {
@@ -77,8 +80,6 @@ func (r *Parser) Next(f *Field) bool {
 		// have to worry about allocations and ownership, but also bigger and less frequent allocations
 		// are made, compared to the previous usage – allocations are now made per event, not per field value.
 		r.fieldScanner.Reset(r.inputScanner.Text())
-
-		return r.fieldScanner.Next(f)
 	}
 
 	return true
